@@ -28,6 +28,8 @@ BIN = os.environ.get("VERIF_SELFTEST_BIN") or os.path.join(VERIF, "target", "rel
 # second build configuration: as a release user builds the crate (no debug assertions,
 # no overflow checks); every other worker chunk runs on it
 BIN2 = BIN.replace("/release/", "/relnd/")
+# third configuration: like relnd, with cactusref's default feature `std` off
+BIN3 = BIN.replace("/release/cactus-sim", "/nostd/relnd/cactus-sim")
 _OUT = os.environ.get("VERIF_SELFTEST_OUT")
 EVID = os.path.join(_OUT, "evidence") if _OUT else os.path.join(VERIF, "evidence")
 REPLAYS = os.path.join(_OUT, "replays") if _OUT else os.path.join(VERIF, "replays")
@@ -39,8 +41,8 @@ SIM_PROFILES = ["C01", "C02", "C03", "C04", "C05", "C06", "C07", "C08", "C09", "
 # runs per tier (each run = one generated history; enumeration profiles execute many
 # fault plans / layouts per run)
 RUNS = {
-    "quick": {"C15": 300000, "C07": 600000, "C16": 8000, "C01": 1000000, "C02": 1000000, "C03": 1000000, "C04": 800000, "C05": 800000, "C06": 800000, "C08": 800000,
-              "C09": 50000, "C10": 40000, "C11": 200000, "C12": 800000, "C13": 800000, "C14": 800000},
+    "quick": {"C15": 300000, "C07": 600000, "C16": 8000, "C01": 1000000, "C02": 1000000, "C03": 1000000, "C04": 800000, "C05": 800000, "C06": 800000, "C08": 600000,
+              "C09": 50000, "C10": 40000, "C11": 120000, "C12": 800000, "C13": 800000, "C14": 800000},
     "thorough": {"C15": 10000000, "C07": 20000000, "C16": 150000, "C01": 30000000, "C02": 30000000, "C03": 30000000, "C04": 20000000, "C05": 20000000, "C06": 20000000, "C08": 20000000,
                  "C09": 400000, "C10": 300000, "C11": 3000000, "C12": 20000000, "C13": 20000000, "C14": 20000000},
 }
@@ -82,7 +84,7 @@ def build():
     if os.environ.get("VERIF_SELFTEST_BIN"):
         return
     env = dict(os.environ, CARGO_NET_OFFLINE="true")
-    for args in (["--release"], ["--profile", "relnd"]):
+    for args in (["--release"], ["--profile", "relnd"], ["--profile", "relnd", "--no-default-features", "--target-dir", os.path.join(os.path.dirname(os.path.dirname(BIN)), "nostd")]):
         r = subprocess.run(["cargo", "build"] + args + ["--offline"], cwd=SIM, env=env, stdout=subprocess.PIPE, stderr=subprocess.STDOUT, text=True)
         if r.returncode != 0:
             eprint(r.stdout[-6000:])
@@ -106,7 +108,12 @@ def run_worker(args):
     os.makedirs(SCRATCH, exist_ok=True)
     outp = os.path.join(SCRATCH, f"w-{profile}-{os.getpid()}-{idx}.out")
     dist = os.path.join(SCRATCH, f"w-{profile}-{os.getpid()}-{idx}.dist")
-    exe = BIN2 if (idx % 2 == 1 and os.path.exists(BIN2) and not digests) else BIN
+    exe = BIN
+    if not digests:
+        if idx % 3 == 1 and os.path.exists(BIN2):
+            exe = BIN2
+        elif idx % 3 == 2 and os.path.exists(BIN3):
+            exe = BIN3
     cmd = [exe, "batch", "--profile", profile, "--seed", str(seed), "--from", str(lo), "--to", str(hi), "--distinct-out", dist]
     if thorough:
         cmd.append("--thorough")
@@ -173,7 +180,8 @@ def run_batches(profile, seed, total, thorough, jobs, digests=False, wall_cap=No
 
 
 def replay_once(profile, ops, faults, layouts, noise=False, timeout=60, ops_a=None, tail=None, log_trace=False, build="checked"):
-    cmd = [BIN2 if (build == "relnd" and os.path.exists(BIN2)) else BIN, "replay", "--profile", profile, "--layouts", ",".join(str(x) for x in layouts), "--faults", faults, "--ops", ";".join(ops)]
+    exe = {"relnd": BIN2, "relnd-nostd": BIN3}.get(build, BIN)
+    cmd = [exe if os.path.exists(exe) else BIN, "replay", "--profile", profile, "--layouts", ",".join(str(x) for x in layouts), "--faults", faults, "--ops", ";".join(ops)]
     if noise:
         cmd.append("--layout-noise")
     if log_trace:
@@ -503,7 +511,7 @@ def check_sim(prop, tier, seed, jobs):
         "known_findings_hit": hit,
         "regression_replays_executed": regress_n,
         "other_property_violations": other_kinds,
-        "components": {"real": ["cactusref (all modules, built from /repo working tree with --cfg cactusref_verif; two build configurations: debug assertions + overflow checks on, and both off; worker chunks alternate)", "hashbrown", "rustc-hash"] + (["std::rc (reference implementation)"] if prop == "C07" else []),
+        "components": {"real": ["cactusref (all modules, built from /repo working tree with --cfg cactusref_verif; three build configurations: debug assertions + overflow checks on; both off; both off and cactusref's `std` feature off; worker chunks alternate)", "hashbrown", "rustc-hash"] + (["std::rc (reference implementation)"] if prop == "C07" else []),
                        "stub": ["payload value type (instrumented Node)", "global allocator (layout-scheduling arena)", "log backend (counting sink; Trace level in 1 run of 8, Off otherwise)"]},
         "exhaustive": False,
     }
